@@ -64,6 +64,11 @@ CLAIMED.update({
          "Generated streams of template and data messages (0..20 records, any subset/order of the schema's elements plus unknown ones, IPv4/IPv6, full integer ranges, UTF-8 strings), both shipped schemas: exactly one Kafka message per data record in order on the configured topic, none for templates, payload = 4-byte big-endian length + exactly that many bytes of protobuf whose fields (read by an independent wire reader keyed by flow.proto's numbers) equal the record's values and the message's export time, sequence number, observation domain and exporter address; the consumer-side decoder accepts the payload and recovers the same values. Sampled.",
          "trusted: sarama's mock producer, the hand-written wire reader, net.IP.String for address text", "DESIGN.md section 3 C19"),
 })
+CLAIMED.update({
+ "C18": ("exhaustive enumeration of the stated configuration matrix (generated cells, independent accept/refuse predicate as oracle), fault-style certificates minted in-process",
+         "All 113 distinct sessions of the matrix run in both tiers: library exporter (TLS x server max version 1.1/1.2/1.3, DTLS) against a harness-controlled server with each of 7 server certificates x 3 ServerName settings; harness TLS client with each of 4 client certificates x 3 max versions against the library collector with and without client CA; plaintext peers against encrypted endpoints and encrypted exporters against plaintext collectors. A predicate written from the statement decides each cell; refused cells must fail InitExportingProcess / deliver nothing, accepted ones must deliver through a session of version >= 1.2. Only the listed certificate faults; no cryptographic analysis.",
+         "trusted: Go crypto/tls and pion/dtls as harness-side peers; in-process ECDSA certificates; a sentinel from a well-behaved peer proves the collector had processed the cell's connection", "DESIGN.md section 3 C18"),
+})
 HOOK_COMMITS = ["bde829d", "7b897fc", "836c091"]
 
 checks = []
